@@ -265,8 +265,61 @@ func DeepCopy(v interface{}) interface{} {
 // pointers by pointee.
 func Snapshot(v interface{}) string {
 	var sb strings.Builder
-	snap(&sb, reflect.ValueOf(v), 0)
+	snapAny(&sb, v, 0)
 	return sb.String()
+}
+
+// snapAny is the fast path for generic JSON values; anything else goes
+// through reflection.
+func snapAny(sb *strings.Builder, v interface{}, depth int) {
+	switch t := v.(type) {
+	case nil:
+		sb.WriteString("nil")
+	case bool:
+		sb.WriteString(strconv.FormatBool(t))
+	case float64:
+		sb.WriteString(strconv.FormatFloat(t, 'g', -1, 64))
+		if t == 0 && math.Signbit(t) {
+			sb.WriteString("(-0)")
+		}
+	case string:
+		sb.WriteString(strconv.Quote(t))
+	case []interface{}:
+		if t == nil {
+			sb.WriteString("([]interface {})nil")
+			return
+		}
+		sb.WriteString("[]interface {}[")
+		for i, e := range t {
+			if i > 0 {
+				sb.WriteByte(',')
+			}
+			snapAny(sb, e, depth+1)
+		}
+		sb.WriteByte(']')
+	case map[string]interface{}:
+		if t == nil {
+			sb.WriteString("(map[string]interface {})nil")
+			return
+		}
+		keys := make([]string, 0, len(t))
+		for k := range t {
+			keys = append(keys, k)
+		}
+		sort.Strings(keys)
+		sb.WriteString("map{")
+		for i, k := range keys {
+			if i > 0 {
+				sb.WriteByte(',')
+			}
+			sb.WriteString(strconv.Quote(k))
+			sb.WriteByte(':')
+			snapAny(sb, t[k], depth+1)
+		}
+		sb.WriteByte('}')
+	default:
+		snap(sb, reflect.ValueOf(v), depth)
+	}
 }
 
 func snap(sb *strings.Builder, v reflect.Value, depth int) {
